@@ -6,10 +6,76 @@ p = os.path.join(ROOT, "DESIGN.md")
 s = open(p).read()
 B, E = "<!-- AS-BUILT NOTES BEGIN -->", "<!-- AS-BUILT NOTES END -->"
 notes = []
-for f in sorted(glob.glob(os.path.join(ROOT, "design_notes", "*.md"))):
+for f in sorted(glob.glob(os.path.join(ROOT, "design_notes", "C*.md"))):
     body = open(f).read().strip()
     body = re.sub(r"^# ", "### ", body, flags=re.M)
     notes.append(body)
+import json
+def load_findings():
+    rows = []
+    paths = [os.path.join(ROOT, "known_findings.jsonl")] + sorted(glob.glob(os.path.join(ROOT, "known_findings.d", "*.jsonl")))
+    for fp in paths:
+        for l in open(fp):
+            l = l.strip()
+            if l:
+                rows.append(json.loads(l))
+    return rows
+rows = load_findings()
+fixed, known = {}, {}
+for r in rows:
+    what = r.get("what", "")
+    if r["status"] == "fixed":
+        fixed.setdefault((r["property"], r.get("commit", "?"), re.sub(r"^fixed: property=\S+ \S+ ", "", what)), 0)
+        fixed[(r["property"], r.get("commit", "?"), re.sub(r"^fixed: property=\S+ \S+ ", "", what))] += 1
+    else:
+        known.setdefault((r["property"], what), []).append(r["key"])
+sec14 = ["## 14. Genuine defects: fixed and known findings (generated from known_findings*.jsonl)", "",
+         "Every entry below was first reported by a check on the then-unchanged tree and reproduced against the real code "
+         "(replay file with the failing input). *Fixed* entries are one `fix:` commit each in /repo and suppress nothing; "
+         "*known* entries are listed with narrow keys (input, call site, or a named deviation operator of the spec) and are "
+         "printed as `KNOWN-FINDING:` lines by the checks.", "", "### Fixed (`fix:` commits in /repo)", "",
+         "| property | commit | what failed |", "|---|---|---|"]
+seen = set()
+for (prop, commit, what), n in sorted(fixed.items()):
+    if (commit, what) in seen:
+        continue
+    seen.add((commit, what))
+    sec14.append("| %s | %s | %s |" % (prop, commit, what.replace("|", "\\|")))
+sec14 += ["", "### Known findings (not repaired: the repair is not small, changes documented behaviour, or needs a design decision)", "",
+          "| property | keys | what fails |", "|---|---|---|"]
+for (prop, what), keys in sorted(known.items()):
+    sec14.append("| %s | %d | %s |" % (prop, len(keys), what.replace("|", "\\|")[:400]))
+sec15 = ["## 15. Seeded changes and which checks catch them (generated from seeded/*/meta.json)", "",
+         "Each change was written by a fresh sub-agent that saw only the property text and its own scratch worktree; it compiles, "
+         "keeps the repository's tests passing, and comes with a demonstration that fails with the change and passes without it "
+         "(both re-run by the coordinator). `MISSED at first` records what had to be strengthened.", "",
+         "| seed | change | needs | caught by | note |", "|---|---|---|---|---|"]
+for d in sorted(glob.glob(os.path.join(ROOT, "seeded", "*", "meta.json"))):
+    m = json.load(open(d))
+    sec15.append("| %s | %s | %s | %s | %s |" % (os.path.basename(os.path.dirname(d)), str(m.get("summary", ""))[:260].replace("|", "/").replace("\n", " "),
+                 str(m.get("needs", ""))[:200].replace("|", "/").replace("\n", " "), str(m.get("caught_by", "")).replace("|", "/"), str(m.get("note", "")).replace("|", "/")))
+# section 12: status table from the registry
+sys_path = os.path.join(ROOT, "lib")
+import sys
+sys.path.insert(0, sys_path)
+import registry
+props = [json.loads(l) for l in open(os.path.join(ROOT, "properties.jsonl"))]
+sec12 = open(os.path.join(ROOT, "design_notes", "_status_preamble.md")).read().rstrip("\n").split("\n") if os.path.exists(os.path.join(ROOT, "design_notes", "_status_preamble.md")) else ["## 12. Status of the build"]
+sec12 += ["", "| property | claimed | level | specification (engine) | deciding method |", "|---|---|---|---|---|"]
+for pr in props:
+    c = registry.CHECKS.get(pr["id"])
+    if c:
+        sec12.append("| %s %s | yes | %s | %s | %s |" % (pr["id"], pr["title"], c["level"], c["engine"], c["technique"].replace("|", "/")[:300]))
+    else:
+        sec12.append("| %s %s | no | | | %s |" % (pr["id"], pr["title"], registry.NOT_APPLICABLE.get(pr["id"], registry.NOT_YET)))
+sec13 = open(os.path.join(ROOT, "design_notes", "_corrections.md")).read().rstrip("\n").split("\n") if os.path.exists(os.path.join(ROOT, "design_notes", "_corrections.md")) else ["## 13. Corrections"]
+G1, G2 = "<!-- GENERATED SECTIONS BEGIN -->", "<!-- GENERATED SECTIONS END -->"
+gen = G1 + "\n\n" + "\n".join(sec12) + "\n\n" + "\n".join(sec13) + "\n\n" + "\n".join(sec14) + "\n\n" + "\n".join(sec15) + "\n\n" + G2
+if G1 in s:
+    s = s[:s.index(G1)] + gen + s[s.index(G2) + len(G2):]
+else:
+    marker = "<!-- AS-BUILT NOTES BEGIN -->"
+    s = s[:s.index(marker)] + gen + "\n\n" + s[s.index(marker):] if marker in s else s.rstrip("\n") + "\n\n" + gen + "\n"
 block = B + "\n\n## Appendix F. As-built notes per property (generated from design_notes/)\n\n" + "\n\n".join(notes) + "\n\n" + E
 if B in s:
     s = s[:s.index(B)] + block + s[s.index(E) + len(E):]
